@@ -344,6 +344,7 @@ type base struct {
 const xmlCT = "application/xml; charset=utf-8"
 
 func p64(v int64) *int64 { return &v }
+func strp(s string) *string { return &s }
 
 func bases(server string) []base {
 	pf := func(kids ...*vx.Node) *vx.Node { return vx.El(vdav.NSDAV, "propfind", kids...) }
@@ -395,6 +396,10 @@ func bases(server string) []base {
 			base{method: "REPORT", path: collP, hdr: [][2]string{{"Content-Type", xmlCT}}, doc: vdav.CardQuery{Data: vdav.AddrData{Present: true, AllProp: true}, PFs: []vdav.CardPropF{{Name: "FN"}}}.Node(), kind: "cardquery"},
 			base{method: "REPORT", path: collP, hdr: [][2]string{{"Content-Type", xmlCT}, {"Depth", "1"}}, doc: q.Node(), kind: "cardquery"},
 			base{method: "REPORT", path: collP, hdr: [][2]string{{"Content-Type", "text/xml"}, {"Depth", "1"}}, doc: mg.Node(func(s string) string { return s }), kind: "cardmultiget"},
+			// result limits at and beyond the range of int (after C13-s15)
+			base{method: "REPORT", path: collP, hdr: [][2]string{{"Content-Type", xmlCT}, {"Depth", "1"}}, doc: vdav.CardQuery{Data: vdav.AddrData{Present: true, AllProp: true}, Limit: strp("9223372036854775807")}.Node(), kind: "cardquery"},
+			base{method: "REPORT", path: collP, hdr: [][2]string{{"Content-Type", xmlCT}, {"Depth", "1"}}, doc: vdav.CardQuery{Data: vdav.AddrData{Present: true, AllProp: true}, Limit: strp("9223372036854775808")}.Node(), kind: "cardquery"},
+			base{method: "REPORT", path: collP, hdr: [][2]string{{"Content-Type", xmlCT}, {"Depth", "1"}}, doc: vdav.CardQuery{Data: vdav.AddrData{Present: true, AllProp: true}, Limit: strp("18446744073709551615")}.Node(), kind: "cardquery"},
 			base{method: "PUT", path: "/u/h/c/new.vcf", hdr: [][2]string{{"Content-Type", "text/vcard"}}, text: vcardTx, kind: "put"},
 			base{method: "MKCOL", path: "/u/h/newbook/", hdr: [][2]string{{"Content-Type", xmlCT}}, doc: vx.El(vdav.NSDAV, "mkcol", vx.El(vdav.NSDAV, "set", vx.El(vdav.NSDAV, "prop", vx.El(vdav.NSDAV, "resourcetype", vx.El(vdav.NSDAV, "collection"), vx.El(vdav.NSCard, "addressbook")), vx.El(vdav.NSDAV, "displayname", vx.T("New"))))), kind: "mkcol"},
 		)
